@@ -62,11 +62,16 @@ type recCall struct {
 	Sub []recCall
 	Err error
 }
-type recEnc struct{ calls []recCall }
+type recEnc struct {
+	calls []recCall
+	// reenter, when set, runs at the start of every AppendObject: a legitimate encoder may log or encode
+	// something else while it holds the element it was handed
+	reenter func()
+}
 
 func (r *recEnc) add(m, k string, v interface{}) { r.calls = append(r.calls, recCall{M: m, K: k, V: v}) }
 func (r *recEnc) AddArray(k string, a zapcore.ArrayMarshaler) error {
-	sub := &recEnc{}
+	sub := &recEnc{reenter: r.reenter}
 	err := a.MarshalLogArray(sub)
 	r.calls = append(r.calls, recCall{M: "AddArray", K: k, Sub: sub.calls, Err: err})
 	return err
@@ -131,6 +136,12 @@ func (r *recEnc) AppendArray(a zapcore.ArrayMarshaler) error {
 	return err
 }
 func (r *recEnc) AppendObject(o zapcore.ObjectMarshaler) error {
+	if r.reenter != nil {
+		f := r.reenter
+		r.reenter = nil
+		f()
+		r.reenter = f
+	}
 	sub := &recEnc{}
 	err := o.MarshalLogObject(sub)
 	r.calls = append(r.calls, recCall{M: "AppendObject", Sub: sub.calls, Err: err})
@@ -752,6 +763,25 @@ func fuStructured(x *fuCtx) {
 	one("ObjectValues", zap.ObjectValues("k", []fuObjPtr{{1}, {2}}), []recCall{{M: "AddArray", K: "k", Sub: []recCall{{M: "AppendObject", Sub: []recCall{{M: "AddInt", K: "v", V: 1}}}, {M: "AppendObject", Sub: []recCall{{M: "AddInt", K: "v", V: 2}}}}}})
 	one("Stringers", zap.Stringers("k", []fuErrStr{{"a"}, {"b"}}), []recCall{{M: "AddArray", K: "k", Sub: []recCall{{M: "AppendString", V: "str:a"}, {M: "AppendString", V: "str:b"}}}})
 	one("Errors", zap.Errors("k", []error{e, nil, e}), []recCall{{M: "AddArray", K: "k", Sub: []recCall{{M: "AppendObject", Sub: []recCall{{M: "AddString", K: "error", V: "boom"}}}, {M: "AppendObject", Sub: []recCall{{M: "AddString", K: "error", V: "boom"}}}}}})
+	// an encoder that encodes another error array while it is being handed the elements of the first one:
+	// each array must still deliver its own errors (pooled element wrappers must not be shared)
+	{
+		ea, eb := errors.New("error-of-A"), errors.New("error-of-B")
+		outer := &recEnc{}
+		var inner []recCall
+		outer.reenter = func() {
+			e2 := &recEnc{}
+			zap.Errors("b", []error{eb, eb}).AddTo(e2)
+			inner = e2.calls
+		}
+		zap.Errors("a", []error{ea, ea, ea}).AddTo(outer)
+		wantA := []recCall{{M: "AddArray", K: "a", Sub: []recCall{{M: "AppendObject", Sub: []recCall{{M: "AddString", K: "error", V: "error-of-A"}}}, {M: "AppendObject", Sub: []recCall{{M: "AddString", K: "error", V: "error-of-A"}}}, {M: "AppendObject", Sub: []recCall{{M: "AddString", K: "error", V: "error-of-A"}}}}}}
+		wantB := []recCall{{M: "AddArray", K: "b", Sub: []recCall{{M: "AppendObject", Sub: []recCall{{M: "AddString", K: "error", V: "error-of-B"}}}, {M: "AppendObject", Sub: []recCall{{M: "AddString", K: "error", V: "error-of-B"}}}}}}
+		x.n++
+		if !sameCalls(outer.calls, wantA) || !sameCalls(inner, wantB) {
+			x.bad("C03/delivered-value-differs:Errors", "two error arrays encoded in an overlapping fashion: the first delivered %s, the second %s", showCalls(outer.calls), showCalls(inner))
+		}
+	}
 	// Stack: a string field naming the caller
 	if f := zap.Stack("k"); f.Type != zapcore.StringType || !strings.Contains(f.String, "fuStructured") {
 		x.bad("C03/delivered-value-differs:Stack", "Stack does not start at its caller: %q", f.String)
